@@ -6,6 +6,8 @@ import CprocVerif.Lemmas.PPInv
 import CprocVerif.Lemmas.PPObjMain
 import CprocVerif.Lemmas.PPArgs
 import CprocVerif.Lemmas.PPArgsExec
+import CprocVerif.Lemmas.PPSubst
+import CprocVerif.Lemmas.PPObjFuel
 
 /-!
 # C12 — macro definition and expansion follow C11 6.10.3 on the implemented subset
@@ -314,6 +316,23 @@ theorem hide_iff_active (n : Nat) (st st' : St) (g : Good st) (h : exec n .next 
   rw [g'.inv.hideIff m hm]
   simp only [liveNames, List.mem_filterMap]
 
+/-- **Termination with an explicit fuel bound** (rescanning with hide flags terminates): on a good
+state `pot st + 4` units of fuel complete the run, where `pot st` adds up, over the tokens still on
+the context stack and in the scanner, the number of tokens each can turn into when every macro is
+replaced at most once along a chain of replacements (`wt`). -/
+theorem object_like_terminates (n : Nat) (st : St) (g : Good st) (hn : pot st + 4 ≤ n) : (run n st).2 = none :=
+  run_terminates n st g hn
+
+/-- … so `object_like_correct` needs no termination hypothesis: with `pot st + 4` units of fuel the
+model's stream is complete and is the reference's. -/
+theorem object_like_correct_total (st : St) (g : Good st) :
+    (run (pot st + 4) st).2 = none ∧
+    ∃ J, ∀ K,
+      (MacroRef.expandH false (K + J) (toTbl st.macros) (absSt st)).2.1 = none ∧
+      (MacroRef.expandH false (K + J) (toTbl st.macros) (absSt st)).1.map (fun t => kwKey t.tok.key)
+        = runKeys (run (pot st + 4) st).1 :=
+  ⟨run_terminates _ st g (Nat.le_refl _), object_like_correct _ st g (run_terminates _ st g (Nat.le_refl _))⟩
+
 -- non-vacuity: `#define A B x` / `#define B A y` / `#define C C` (mutual and self reference), text `A C B`
 def mAB : Macro := { func := false, name := b!"A", body := [ident b!"B" true, ident b!"x" true] }
 def mBA : Macro := { func := false, name := b!"B", body := [ident b!"A" true, ident b!"y" true] }
@@ -323,6 +342,8 @@ def stObj : St := { raw := [ident b!"A", ident b!"C" true, NL, ident b!"B"], mac
 example : Good stObj :=
   good_init _ _ (by decide) (by decide) (by decide) (by unfold okKind; decide) (by decide)
 example : (run 40 stObj).2 = none := by decide +kernel
+example : pot stObj = 13 := by decide +kernel            -- so 17 units of fuel are enough
+
 example : runKeys (run 40 stObj).1 =
     [(.TIDENT, some b!"A"), (.TIDENT, some b!"y"), (.TIDENT, some b!"x"), (.TIDENT, some b!"C"),
      (.TIDENT, some b!"B"), (.TIDENT, some b!"x"), (.TIDENT, some b!"y")] := by decide +kernel
@@ -387,6 +408,56 @@ def mF : Macro := { func := true, name := b!"F", params := [pA, pV] }
 def stF : St := { raw := [num b!"1", tk .TCOMMA, tk .TLPAREN, num b!"2", tk .TCOMMA, ident b!"y", tk .TRPAREN,
                           tk .TRPAREN, ident b!"x"], macros := [mF] }
 example : stF.ctx = [] ∧ (∀ x ∈ stF.raw, PlainTok stF.macros x) ∧ 0 < mF.params.length := by decide +kernel
+
+/-! ## 7b. Lazy parameter substitution (6.10.3.1, 6.10.3.2)
+
+`ctxnext` replaces a parameter only when it reaches it.  `flat ms ctx` is the eager description of
+what the context stack holds: for the frame of a function-like macro its remaining replacement list
+with every parameter replaced by the stored argument (`substBody`: first token of a replacement
+takes the white-space flag of the parameter's place, `# parameter` is the stored string), for any
+other frame its tokens. -/
+
+/-- **Each `ctxnext()` delivers the next token of `flat`** — through parameter replacement, empty
+arguments (`goto again`), `#` strings and exhausted frames (`macrodone`) — and reports "nothing"
+exactly when `flat` is empty.  Fuel: one unit more than there are tokens on the stack. -/
+theorem ctxnext_delivers_flat (k : Nat) (st : St) (hk : ctxSize st.ctx ≤ k) (hW : CtxWF st.macros st.ctx) :
+    ∃ s, exec (k + 1) .ctxnext st = .ok s ∧ s.raw = st.raw ∧ CtxWF s.macros s.ctx ∧
+      ((s.rb = false ∧ s.ctx = [] ∧ flat st.macros st.ctx = []) ∨
+       (s.rb = true ∧ flat st.macros st.ctx = s.rt :: flat s.macros s.ctx)) :=
+  ctxnext_flat k st hk hW
+
+/-- **What the frame delivers is the reference's substituted replacement list**: if the stored
+arguments are the reference's completely macro-replaced arguments (`full`) and the stored strings
+the reference's spellings of the arguments as written (`raw`), then `substBody` equals
+`Spec.MacroRef.subst` on the parsed replacement list, token by token in class, spelling and
+"never replace" mark. -/
+theorem lazy_substitution_correct (m : Macro) (md : MacroRef.MacroDef) (hf : md.func = true)
+    (hidx : ∀ t : Tok, MacroRef.paramIndex md (toP t) = macroparam m.params t)
+    (raw full : Nat → List MacroRef.HTok)
+    (hargs : ∀ i, ((m.args.getD i default).toks).map kh = (full i).map kh')
+    (hstr : ∀ i, kh (m.args.getD i default).str =
+      ((MacroRef.stringizeRef ((raw i).map (·.tok))).kind, (MacroRef.stringizeRef ((raw i).map (·.tok))).lit, false))
+    (body : List Tok) (hb : ∀ t ∈ body, t.hide = false) (pend : Bool) :
+    (substBody m body).map kh = (MacroRef.subst raw full (MacroRef.elems md (body.map toP)) pend).map kh' :=
+  substBody_spec m md hf hidx raw full hargs hstr body hb pend
+
+/-- the well-formedness `ctxnext_delivers_flat` asks of function-like frames is what `define`
+guarantees (with `define_accepts_only_wellformed`) -/
+theorem define_hash_followed {m : Macro} (h : m.WF) (hf : m.func = true) : HashFollowed m.params m.body :=
+  wf_hashFollowed h hf
+
+-- non-vacuity: `#define G(a, b) a # b x` invoked with a = `1 2`, b = `y`; the frame holds the whole body
+def mG : Macro :=
+  { func := true, name := b!"G", params := [{ name := b!"a", ftok := true }, { name := b!"b", fstr := true }],
+    args := [⟨[num b!"1", num b!"2" true], default⟩, ⟨[], strTok b!"\"y\""⟩],
+    body := [ident b!"a" true, tk .THASH none true, ident b!"b", ident b!"x" true] }
+example : HashFollowed mG.params mG.body := by
+  simp [HashFollowed, mG, ident, tk, macroparam]
+  decide
+example : flat [mG] [⟨mG.body, some b!"G"⟩] =
+    [num b!"1" true, num b!"2" true, ⟨.TSTRINGLIT, some b!"\"y\"", true, false⟩, ident b!"x" true] := by decide +kernel
+example : ∃ s, exec 5 .ctxnext { raw := [], ctx := [⟨mG.body, some b!"G"⟩], macros := [mG] } = .ok s ∧
+    s.rb = true ∧ s.rt = num b!"1" true := ⟨_, rfl, rfl, rfl⟩
 
 /-! ## 8. Function-like macros: the full statement, and why it is false today
 
